@@ -484,7 +484,9 @@ impl Check for C18 {
         let ih = v.out.torrent.info_hash;
         let target = (v.plan.seed % 256) as u8;
         vd.class = hash_of(&(g.announce.clone(), ih.contains(&target), target, v.plan.own_id.clone()));
+        let mut ver = crate::oracles_wire::Verified::default();
         for e in &v.out.entries {
+            ver.on_event(v, &e.ev);
             if let Ev::Announce { url, .. } = &e.ev {
                 vd.nontrivial = true;
                 if ih.contains(&target) {
@@ -535,8 +537,12 @@ impl Check for C18 {
                 if get("port").as_deref() != Some("6881") {
                     vd.fail("C18", "C18.port", format!("port {:?}", get("port")), e.seq);
                 }
-                if get("left") != Some(g.total().to_string()) {
-                    vd.fail("C18", "C18.left", format!("left {:?} != {}", get("left"), g.total()), e.seq);
+                // the total on the first announce; on a re-announce either the total or the bytes
+                // really left (both readings of "bytes left" are accepted)
+                let stored: u64 = (0..v.out.torrent.pieces()).filter(|i| ver.set.contains(i)).map(|i| v.out.torrent.piece_len(i) as u64).sum();
+                let ok_left = [g.total(), g.total() - stored].iter().any(|x| get("left") == Some(x.to_string()));
+                if !ok_left {
+                    vd.fail("C18", "C18.left", format!("left {:?}, expected {} (total) or {} (remaining)", get("left"), g.total(), g.total() - stored), e.seq);
                 }
             }
         }
